@@ -121,9 +121,7 @@ def op_lines(slot, ops):
     out = []
     for o in ops:
         if o.startswith("fill"):
-            n = int(o.split()[1])
-            off = fill_offset(n)
-            out.append(f"fill {slot} {n}" + (f" {off}" if off else ""))
+            out.append(f"fill {slot} {o.split()[1]}")        # the destination's offset is added by common.place_destination
         else:
             out.append(f"{o} {slot}")
     return out
@@ -334,6 +332,13 @@ def tie_C02(ctx):
         ctx.dist["hc128:deep>65536 words"] += 1
     ctx.absolute("keystream(Hc128Rng) vs model", cases)
     core_level(ctx, ["Hc128Rng"])
+    if ctx.thorough:
+        # the keystream is defined beyond 2^32 words: the generator must still deliver it (values there are not compared: the
+        # model would need hours to get there; C14 runs the same history in the quick tier for panic-freedom)
+        long_ = [["new 0 Hc128Rng seed " + "05" * 32, f"burn 0 {(1 << 34) + 8192}", "u32 0"]]
+        o = ctx.real("Hc128Rng beyond 2^32 keystream words", long_)[0]
+        if "panic" in o:
+            ctx.fail("keystream", "Hc128Rng stops delivering keystream (panics) after 2^32 words", long_[0], expected="keystream", actual="panic")
 
 def tie_C03(ctx):
     rng = ctx.rng
@@ -1857,6 +1862,11 @@ def tie_C14(ctx):
             for how in ("rng", "try"):
                 cases.append([f"src 1 {body.hex()}", f"new 0 {g} {how} 1", f"{native(g)} 0"])
     cases += arith_edge_cases(ctx)
+    # HC-128 beyond 2^32 keystream words (16 GiB: every counter of 32 bits or fewer has wrapped), ISAAC-64/ISAAC a few GiB
+    cases.append(["new 0 Hc128Rng seed " + "05" * 32, f"burn 0 {(1 << 34) + 8192}", "u32 0", "fill 0 70"])
+    cases.append(["new 0 IsaacRng seed " + "06" * 32, f"burn 0 {1 << 31}", "u32 0"])
+    cases.append(["new 0 Xoshiro256PlusPlus seed " + "07" * 32, f"burn 0 {1 << 31}", "u64 0"])
+    ctx.dist["very long histories (burn)"] += 3
     # HC-128 far into the stream (counter arithmetic), ISAAC across many refills
     cases.append(["new 0 Hc128Rng seed " + "07" * 32] + ["fill 0 65536"] * 5 + ["u32 0", "u64 0"])
     cases.append(["new 0 IsaacRng seed " + "09" * 32] + ["fill 0 65535"] * 2 + ["u32 0", "u64 0"])
@@ -1865,6 +1875,7 @@ def tie_C14(ctx):
     h, _ = ctx.absolute("every operation under catch_unwind in an overflow-checked build; model predicts no panic", cases,
                         stop_at_blocked=True, mask=lambda c: c.startswith("dbg "),
                         equal=lambda x, y: (x == "panic") == (y == "panic"))
+    # (`burn` lines answer `ok <xor of the last bytes>` on the real code and `ok` in the model: only panic-ness is compared)
     for c, o in zip(cases, h):
         for cmd, v in zip(c, o):
             if v == "panic" and not (cmd.startswith("rounds ") and cmd.endswith(" 0")):
@@ -2086,7 +2097,7 @@ def tie_C16(ctx):
     for (shape, r), c, o in zip(meta, cases, h):
         b = o[6:]
         fresh = 1 + 3 * (1 + r)
-        if "blocked" in o:
+        if "blocked" in o and shape != 6:
             continue
         if shape == 6:
             # o: timer, jit, rounds, u32, calls, X(blocked), calls, tappend, u32, calls
